@@ -341,6 +341,7 @@ func main() {
 	c := vlib.Init("C12")
 	defer c.Finish()
 	c.Family("call", caseHeader, "fun c => andb pk_selftest (call_case_ok c)", c.Pick(400, 500))
+	c.Family("xfind", xfindHeader, "fun c => andb pk_selftest (xfind_case_ok c)", 40)
 	c.Family("find", caseHeader, "fun c => andb pk_selftest (find_case_ok c)", c.Pick(60, 80))
 	r := &run{c: c, failed: map[string]int{}, histSeen: map[string]bool{}}
 
@@ -359,6 +360,7 @@ func main() {
 	r.valueKeyCases()
 	r.secondHashCases()
 	r.findCases()
+	r.xfindCases()
 }
 
 // ---------------------------------------------------------------------------
@@ -1111,6 +1113,20 @@ func (r *run) replay() {
 		if msg != "" {
 			fmt.Println("ORACLE-FAIL:", msg)
 			r.c.Fail("replay", msg, h)
+		} else {
+			fmt.Println("oracles hold")
+		}
+	case "xfind":
+		var sc xScenario
+		if err := r.c.LoadReplay(&sc); err != nil {
+			panic(err)
+		}
+		pool := makePeerPool(r.c.Rng.Fork("findpool"), 5, 1, 2)
+		msg := r.runX(&sc, pool, true)
+		fmt.Println("replay", xSig(&sc))
+		if msg != "" {
+			fmt.Println("ORACLE-FAIL:", msg)
+			r.c.Fail("replay", msg, sc)
 		} else {
 			fmt.Println("oracles hold")
 		}
